@@ -95,12 +95,26 @@ MUT = {
 }
 
 
+REDUCED = {
+    'G1_hidden_query_not_canonical': ['C05', 'C09'],
+    'G2_placement_receives_display_none_children': ['C05'],
+    'G3_baselines_only_when_laying_out': ['C05', 'C09'],
+    'G4_top_margin_resolved_against_zero': ['C05', 'C09'],
+    'G5_order_not_advanced_for_absolute_children': ['C05', 'C06'],
+    'G6_row_rerun_test_filters_on_rows': ['C06', 'C09'],
+    'G7_order_stored_before_the_hidden_layout': ['C05'],
+    'G8_max_content_cache_not_cleared_in_rerun_test': ['C06', 'C09'],
+    'H1_harmless': ['C05', 'C06', 'C09'],
+}
+
+
 def main():
     if not os.path.isdir(R):
         subprocess.run(['git', '-C', '/repo', 'worktree', 'add', '--detach', R, 'HEAD'], check=True)
     names = sys.argv[1:] or list(MUT)
-    checks = os.environ.get('MUT_CHECKS', 'C05,C06,C09').split(',')
+    all_checks = os.environ.get('MUT_CHECKS', 'C05,C06,C09').split(',')
     for name in names:
+        checks = [c for c in all_checks if not os.environ.get('MUT_REDUCED') or c in REDUCED.get(name, all_checks)]
         reset()
         expect, edits = MUT[name]
         for f, old, new in edits:
